@@ -366,6 +366,7 @@ func (e *Engine) completeUp(t *Task) {
 	u.Answered = true
 	u.ReplyT = e.nowMs()
 	u.EndSeq = e.seq + 1
+	u.EndT = e.nowMs()
 	u.ReplySeq = e.ev("up-reply", t.Name, fmt.Sprintf("#%d %s", u.Serial, replySummary(u)))
 	e.release(t, opRun)
 }
@@ -376,6 +377,7 @@ func (e *Engine) onUpTimeout(t *Task) {
 		if u.Task == t.ID && !u.Answered && !u.TimedOut {
 			u.TimedOut = true
 			u.EndSeq = e.seq + 1
+			u.EndT = e.nowMs()
 			e.ev("up-timeout", t.Name, fmt.Sprintf("#%d caller gave up", u.Serial))
 			e.hist.FaultFired["origin:timeout-fired"]++
 			break
@@ -600,6 +602,7 @@ func (e *Engine) crashRestart(i int, op *Op) {
 		if !u.Answered && !u.TimedOut {
 			u.TimedOut = true
 			u.EndSeq = e.seq
+			u.EndT = e.nowMs()
 		}
 	}
 	if op.Kind == OpCrash {
